@@ -139,6 +139,10 @@ func C14(c *core.Ctx) error {
 				byName[cs.Name] = cs
 			}
 			o, m, err := genRun(c, g, cases, "", nil, true)
+			if err == errResources {
+				c.Skip("%s: %v", gname, err)
+				return
+			}
 			if err != nil {
 				c.Harness("%s: %v", gname, err)
 				return
